@@ -67,8 +67,23 @@ pub fn copy_file_bytes(infd: &File, outfd: &File, bytes: u64) -> Result<usize> {
 pub fn copy_file_offset(infd: &File, outfd: &File, bytes: u64, off: i64) -> Result<usize> {
     let mut off_in = off as u64;
     let mut off_out = off as u64;
-    try_copy_file_range(infd, Some(&mut off_in), outfd, Some(&mut off_out), bytes)
-        .unwrap_or_else(|| copy_range_uspace(infd, outfd, bytes as usize, off as usize))
+    let mut written: u64 = 0;
+    // copy_file_range() may legitimately copy fewer bytes than
+    // requested, so keep going until the block is done or the source
+    // hits EOF.
+    while written < bytes {
+        let remaining = bytes - written;
+        match try_copy_file_range(infd, Some(&mut off_in), outfd, Some(&mut off_out), remaining) {
+            Some(Ok(0)) => break,
+            Some(Ok(copied)) => written += copied as u64,
+            Some(Err(e)) => return Err(e),
+            None => {
+                let uoff = off as u64 + written;
+                written += copy_range_uspace(infd, outfd, remaining as usize, uoff as usize)? as u64;
+            }
+        }
+    }
+    Ok(written as usize)
 }
 
 /// Guestimate if file is sparse; if it has less blocks that would be
